@@ -2,7 +2,7 @@
 from hypothesis import given, seed
 
 from vlib import gen_cat, gen_pair, inventory, oracle_ja as oj, runner
-from vlib.model_cat import A, F, canon, from_json, jsonable, model_of, read, to_cat
+from vlib.model_cat import ORIGINS, A, F, canon, from_json, jsonable, model_of, read, to_cat, to_cat_via
 from vlib.tape import Tape, tapes
 
 PROPERTY = 'C04'
@@ -19,13 +19,13 @@ SCHEMA_PATTERNS = [("a/b", "b"), ("b", "a\\b"), ("a/b", "b/c"), ("b\\c", "a\\b")
 
 
 @runner.guarded(PROPERTY)
-def check_pair(mx, my, info=None):
+def check_pair(mx, my, info=None, origins=('built', 'built')):
     from depccg.grammar import ja
     fails = []
 
     def bad(key, msg):
         fails.append((f'{PROPERTY}/{key}', msg))
-    x, y = to_cat(mx), to_cat(my)
+    x, y = to_cat_via(mx, origins[0]), to_cat_via(my, origins[1])
     tag = f'({canon(mx)} , {canon(my)})'
     try:
         results = ja.apply_binary_rules(x, y)
@@ -85,12 +85,13 @@ def check_unary(mx, targets, info=None):
 def replay(case):
     if case.get('kind') == 'unary':
         return check_unary(from_json(case['x']), [from_json(t) for t in case['targets']])
-    return check_pair(from_json(case['x']), from_json(case['y']))
+    return check_pair(from_json(case['x']), from_json(case['y']),
+                      origins=(case.get('origin_x', 'built'), case.get('origin_y', 'built')))
 
 
 def _do_pair(ctx, mx, my, cls, direct, extra=None):
     info = {'nres': 0, 'unspec': 0}
-    fails = check_pair(mx, my, info)
+    fails = check_pair(mx, my, info, origins=((extra or {}).get('origin_x', 'built'), (extra or {}).get('origin_y', 'built')))
     case = {'kind': 'binary', 'x': jsonable(mx), 'y': jsonable(my)}
     if extra:
         case.update(extra)
@@ -136,12 +137,14 @@ def build_case(data):
         y = t.pick(rs)
         if t.chance(100):
             y, _ = gen_pair.t_perturb(t, y, 'ja')
-        return x, y, {'schema': 'SSEQ', 'perturbations': []}
+        return x, y, {'schema': 'SSEQ', 'perturbations': [],
+                      'origin_x': ORIGINS[t.tail(0) % 4], 'origin_y': ORIGINS[t.tail(1) % 4]}
     px, py = t.pick(SCHEMA_PATTERNS)
     mpx, mpy = read(px), read(py)
     n_pert = t.weighted([(4, 0), (3, 1), (1, 2)])
     mx, my, env, kinds = gen_pair.t_instance(t, mpx, mpy, 'ja', n_pert, list('abcdef'))
-    return mx, my, {'schema': [px, py], 'perturbations': kinds}
+    return mx, my, {'schema': [px, py], 'perturbations': kinds,
+                    'origin_x': ORIGINS[t.tail(0) % 4], 'origin_y': ORIGINS[t.tail(1) % 4]}
 
 
 def synthetic_unary_inputs():
